@@ -6,6 +6,7 @@
 #include "libc_stubs.h"
 struct verif_ghost __verif_g;
 uint32_t __verif_gf, __verif_gi, __verif_gpos;
+const uint8_t *__verif_c; uint32_t __verif_end;
 
 #include "nanoisa/isa.c"       /* real table + codec (codec calls are replaced by the general contracts) */
 #include "nanoisa/verifier.c"
